@@ -252,42 +252,47 @@ func gen(g *hx.Gen) {
 	}
 }
 
-// one call of Encrypt or Decrypt with the requested buffer geometry
-func call(f func(dst, src []byte, sector uint64), src []byte, dstlen int, off string, sector uint64) (out string) {
+// one call of Encrypt or Decrypt with the requested buffer geometry. All caller memory is one arena:
+// separate buffers = src window (sentinel spare behind it) and dst window; same buffer = one 0xa5-filled
+// region holding both. Every byte outside dst[:len(src)] must be unchanged after the call.
+func call(f func(dst, src []byte, sector uint64), src []byte, dstlen int, off string, sector uint64, mut mutated) (out string) {
+	n := len(src)
+	var ar *arena
+	var dst []byte
+	check := func() {}
 	defer func() {
 		if recover() != nil {
 			out = "panic"
 		}
+		check()
 	}()
-	var dst, s []byte
-	const pad = 64
 	if off == "sep" {
-		s = append([]byte(nil), src...)
-		full := bytes.Repeat([]byte{0xa5}, dstlen+pad)
-		dst = full[:dstlen:dstlen]
-		f(dst, s, sector)
-		if !bytes.Equal(full[dstlen:], bytes.Repeat([]byte{0xa5}, pad)) {
-			return "wrote-past-dst"
-		}
+		w := min(n, dstlen)
+		var in [][]byte
+		ar, in = build(spec{name: "src", data: src, spare: 8},
+			spec{name: "dst", data: make([]byte, w), spare: dstlen - w + 64, writable: true})
+		check = func() { mut.add(ar.changed()) }
+		dst = in[1][:dstlen]
+		f(dst, in[0], sector)
 	} else {
 		d, _ := strconv.Atoi(off)
 		a := 0
 		if d < 0 {
 			a = -d
 		}
-		buf := bytes.Repeat([]byte{0xa5}, a+abs(d)+len(src)+dstlen+pad)
+		buf := bytes.Repeat([]byte{0xa5}, a+abs(d)+n+dstlen+64)
 		copy(buf[a:], src)
-		s = buf[a : a+len(src)]
-		dst = buf[a+d : a+d+dstlen]
-		f(dst, s, sector)
-	}
-	n := len(src)
-	if off == "sep" || off == "0" {
-		for _, b := range dst[n:] {
-			if b != 0xa5 {
-				return "tail-touched"
+		snap := append([]byte(nil), buf...)
+		check = func() {
+			for i := range buf {
+				if buf[i] != snap[i] && !(i >= a+d && i < a+d+n) {
+					mut.add([]string{"buf"})
+					return
+				}
 			}
 		}
+		dst = buf[a+d : a+d+dstlen]
+		f(dst, buf[a:a+n], sector)
 	}
 	return "ok:" + hx.Hex(dst[:n])
 }
@@ -315,14 +320,18 @@ func exec(line string) string {
 	default:
 		return "bad-op"
 	}
-	c, err := xts.NewCipher(cf, o.Hex("key"))
+	mut := mutated{}
+	kar, kin := build(spec{name: "key", data: o.Hex("key"), spare: 8})
+	c, err := xts.NewCipher(cf, kin[0])
+	mut.add(kar.changed())
 	if err != nil {
-		return "err"
+		return "err " + mut.String()
 	}
 	src := o.Hex("src")
 	sector := o.U64("sector")
-	e := call(c.Encrypt, src, o.Int("dstlen"), o.Str("off"), sector)
-	d := call(c.Decrypt, src, o.Int("dstlen"), o.Str("off"), sector)
+	e := call(c.Encrypt, src, o.Int("dstlen"), o.Str("off"), sector, mut)
+	d := call(c.Decrypt, src, o.Int("dstlen"), o.Str("off"), sector, mut)
+	mut.add(kar.changed())
 	// Decrypt(Encrypt(x)) = x on the real code, separate buffers
 	if strings.HasPrefix(e, "ok:") {
 		ct := hx.UnHex(e[3:])
@@ -332,7 +341,7 @@ func exec(line string) string {
 			return "rt-fail"
 		}
 	}
-	return fmt.Sprintf("%s %s", e, d)
+	return fmt.Sprintf("%s %s %s", e, d, mut)
 }
 
 // `c13 mkcorpus < "key sector pt ct" lines` prints corpus ops (IEEE 1619 vectors) with AES oracle fields.
